@@ -632,6 +632,33 @@ def r6_filter_ownership(chk: Check) -> None:
                 chk.violation("C07.R6", fn, construct, f"the filter set passed in replaces {own}: filters configured on the schema itself are dropped and excluded operations are tested", fn.loc(c))
             else:
                 chk.undecided("C07.R6", fn, construct, f"cannot relate the new filter set to {own}", fn.loc(c))
+    # nobody updates somebody else's FilterSet in place: the internals (`_includes` / `_excludes`) are written only by
+    # FilterSet's own methods; elsewhere a combined set is BUILT (`FilterSet(_includes=a | b, ...)`), because the
+    # operands belong to long-lived objects (the lazy schema, the schema returned by a fixture) that are used again
+    MUT = ("add", "update", "discard", "remove", "clear", "difference_update", "intersection_update", "symmetric_difference_update", "pop")
+    for fn in P.all_functions():
+        if isinstance(fn.node, ast.Lambda) or (fn.cls is not None and fn.cls.qualname.endswith(":FilterSet")):
+            continue
+        for st_ in walk_body(fn.node):
+            tgt = None
+            if isinstance(st_, ast.AugAssign) and isinstance(st_.target, ast.Attribute) and st_.target.attr in ("_includes", "_excludes"):
+                tgt = st_.target
+            elif isinstance(st_, ast.Assign) and any(isinstance(t, ast.Attribute) and t.attr in ("_includes", "_excludes") for t in st_.targets):
+                tgt = next(t for t in st_.targets if isinstance(t, ast.Attribute) and t.attr in ("_includes", "_excludes"))
+            elif isinstance(st_, ast.Expr) and isinstance(st_.value, ast.Call) and isinstance(st_.value.func, ast.Attribute) and st_.value.func.attr in MUT and isinstance(st_.value.func.value, ast.Attribute) and st_.value.func.value.attr in ("_includes", "_excludes"):
+                tgt = st_.value.func.value
+            if tgt is None:
+                continue
+            n_sites += 1
+            owner = unparse(tgt.value)  # type: ignore[attr-defined]
+            construct = f"{fn.qualname.partition(':')[2]}: `{unparse(st_, 70)}` updates a filter set in place"
+            made_here = isinstance(tgt.value, ast.Name) and any(v is not None and isinstance(v, ast.Call) and (last_attr(v) in ("FilterSet", "clone")) for _, v in assignments_to(fn.node, tgt.value.id))  # type: ignore[attr-defined]
+            if made_here:
+                chk.ok("C07.R6", fn, construct, f"`{owner}` is built in this function", fn.loc(st_))
+            else:
+                chk.violation("C07.R6", fn, construct,
+                              f"`{owner}` is not created here (a parameter / another object's filter set): the update stays in the long-lived object - e.g. the lazy schema's own filters keep the filters of the schema returned by the fixture in THIS run and apply them in every later run (operations outside the selection are tested, selected ones are never offered)",
+                              fn.loc(st_))
     if n_sites == 0:
         raise Undecided("no clone(filter_set=...) site found")
     # BaseSchema.clone itself keeps self.filter_set when none is given
